@@ -509,6 +509,42 @@ func (g *GoBackNConn) sendPacketsForever() error {
 				if err := resendQueue(); err != nil {
 					return err
 				}
+
+			case <-g.pingTicker.Ticks():
+				// Nothing has been received for the ping time
+				// while the window is full, so no ping packet
+				// can be queued. The keepalive must still work
+				// in this state, or a dead peer is never
+				// detected. As in the outer select, the pong
+				// ticker takes priority if both have ticked.
+				select {
+				case <-g.pongTicker.Ticks():
+					return errKeepaliveTimeout
+				default:
+				}
+
+				// If ACKs emptied part of the window while we
+				// were waiting here, leave the full-window wait
+				// instead: the outer select sends a regular
+				// ping packet on the next ping tick.
+				if g.sendQueue.size() < g.cfg.n {
+					break
+				}
+
+				// Start the pong timer and use the packets in
+				// flight as the probe: resending them makes a
+				// live peer answer with an ACK or a NACK, and
+				// anything we receive stops the pong timer.
+				g.pongTicker.Reset()
+				g.pongTicker.Resume()
+				g.pingTicker.Reset()
+
+				if err := resendQueue(); err != nil {
+					return err
+				}
+
+			case <-g.pongTicker.Ticks():
+				return errKeepaliveTimeout
 			}
 		}
 	}
